@@ -43,6 +43,15 @@ def handle (j : Json) : Json :=
   | "string" =>
     let base := strList (getObj j "base")
     resJ (readString sh fs cwd base fuel (parseHrefs j "hrefs") ((getArr j "comps").toList.map parseComp))
+  | "file-kept" =>
+    -- `read_neuroml2_file(.., already_included=al0)` with a list the caller keeps: result class + the list afterwards
+    let o := readFileKept (getBool j "rm") sh fs cwd fuel (strList (getObj j "entry_file")) (parseHrefs j "al0")
+    Json.mkObj [("res", (resJ o.1).getObjValD "res"), ("kept", pathsJ o.2)]
+  | "string-kept" =>
+    let base := strList (getObj j "base")
+    let o := readStringKept (getBool j "rm") sh fs cwd base fuel (parseHrefs j "hrefs")
+      ((getArr j "comps").toList.map parseComp) (parseHrefs j "al0")
+    Json.mkObj [("res", (resJ o.1).getObjValD "res"), ("kept", pathsJ o.2)]
   | m => Json.mkObj [("res", "bad-mode:" ++ m)]
 
 def main : IO Unit := loop handle
